@@ -8,6 +8,7 @@
    (the recommended version, with the single restriction EVERYTHING), or a comma separated union of
    bracketed restrictions; [1.0] is the restriction with lower = upper = 1.0, both inclusive. *)
 From DepsDev Require Import Lib.Base.
+From DepsDev Require Spec.MavenSpec.
 Local Open Scope Z_scope.
 
 Record mrestr := { lo : option (list Z); lo_incl : bool; hi : option (list Z); hi_incl : bool }.
@@ -54,3 +55,58 @@ Definition contains (s : mspec) (v : list Z) : bool :=
   | MSoft _ => true
   | MRanges l => existsb (fun r => restr_contains r v) l
   end.
+
+(* ---------------------------------------------------------------- any Maven version string *)
+(* The same range semantics with bounds and candidates that are arbitrary version strings
+   (qualifiers, SNAPSHOT, ...), ordered by Spec/MavenSpec.v mspec_compare, the transcription of
+   ComparableVersion that is validated against the maven-artifact jar. *)
+Record mrestr_s := { slo : option bytes; slo_incl : bool; shi : option bytes; shi_incl : bool }.
+
+Inductive mspec_s := MSoftS (v : bytes) | MRangesS (l : list mrestr_s).
+
+Definition restr_contains_s (r : mrestr_s) (v : bytes) : bool :=
+  match slo r with
+  | Some l =>
+      let c := MavenSpec.mspec_compare l v in
+      negb ((c =? 0) && negb (slo_incl r)) && negb (0 <? c)
+  | None => true
+  end
+  &&
+  match shi r with
+  | Some h =>
+      let c := MavenSpec.mspec_compare h v in
+      negb ((c =? 0) && negb (shi_incl r)) && negb (c <? 0)
+  | None => true
+  end.
+
+Definition contains_s (s : mspec_s) (v : bytes) : bool :=
+  match s with
+  | MSoftS _ => true
+  | MRangesS l => existsb (fun r => restr_contains_s r v) l
+  end.
+
+(* ---------------------------------------------------------------- a witness of non-emptiness *)
+Fixpoint mv_bump (r : list Z) : list Z :=
+  match r with [] => [1] | [x] => [x + 1] | x :: t => x :: mv_bump t end.
+
+Definition restr_near (r : mrestr) : list (list Z) :=
+  match lo r with Some l => [l; l ++ [1]; mv_bump l] | None => [[0]] end
+  ++ match hi r with Some h => [h] | None => [] end.
+
+Definition mv_candidates (s : mspec) : list (list Z) :=
+  match s with MSoft v => [v] | MRanges l => [0] :: flat_map restr_near l end.
+
+Definition mv_witness (s : mspec) : option (list Z) := find (fun v => contains s v) (mv_candidates s).
+
+Definition plain_b (s : bytes) : bool := forallb (fun c => is_digit c || N.eqb c 46) s.
+
+Definition restr_near_s (r : mrestr_s) : list bytes :=
+  match slo r with Some l => l :: (if plain_b l then [l ++ [46; 49]%N] else []) | None => [[48%N]] end
+  ++ match shi r with Some h => [h] | None => [] end.
+
+Definition mv_candidates_s (s : mspec_s) : list bytes :=
+  match s with MSoftS v => [v] | MRangesS l => [48%N] :: flat_map restr_near_s l end.
+
+(* candidates of the property are versions >= 0 *)
+Definition mv_witness_s (s : mspec_s) : option bytes :=
+  find (fun v => contains_s s v && (0 <=? MavenSpec.mspec_compare v [48%N])) (mv_candidates_s s).
